@@ -153,9 +153,10 @@ func runC14(res *result) {
 			Replies []*replyDesc `json:"replies"`
 		}
 		json.Unmarshal(results[i].Call, &cr)
+		// cur is the request whose reply is being judged (the last one until replies are walked)
+		cur := e.seq[len(e.seq)-1].name
 		fail := func(kind, msg string) {
-			last := e.seq[len(e.seq)-1].name
-			res.fail(finding{Key: fmt.Sprintf("C14/%s/%s/%s", kind, e.server, last), IDL: u.texts, Atom: e.desc, Msg: e.desc + ": " + msg})
+			res.fail(finding{Key: fmt.Sprintf("C14/%s/%s/%s/%s", kind, e.server, e.cs.Proto, cur), IDL: u.texts, Atom: e.desc, Msg: e.desc + ": " + msg})
 		}
 		if results[i].Panic != "" || cr.Err != "" {
 			fail("serve-failed", results[i].Panic+cr.Err)
@@ -170,6 +171,7 @@ func runC14(res *result) {
 		}
 		ri := 0
 		for qi, k := range e.seq {
+			cur = k.name
 			opid := fmt.Sprint(100 + qi)
 			var rp *replyDesc
 			if e.server == "http" {
